@@ -205,11 +205,22 @@ let handle (case : string) (out : string) : unit =
         let i = String.index head '@' in
         let k = String.sub head 0 i in
         let t = z_of_int64 (Int64.of_string (String.sub head (i + 1) (String.length head - i - 1))) in
+        let rec take n l = if n <= 0 then [] else match l with [] -> [] | x :: r -> x :: take (n - 1) r in
+        let rec drop n l = if n <= 0 then l else match l with [] -> [] | _ :: r -> drop (n - 1) r in
         match k, arg with
         | ("P" | "F"), _ -> (OpPoll t, `Poll (k = "F"))
+        | ("Zr" | "Zt"), _ -> (OpTxNone (k = "Zr", t), `Nop)
         | _, Some a ->
             let by_rx = (k = "Xr") in
-            if a.[0] = 'G' then
+            if a.[0] = 'H' || a.[0] = 'L' then
+              (* a telegram sent in two pieces through transmit_data *)
+              let j = String.index a '/' in
+              let n = int_of_string (String.sub a 1 (j - 1)) in
+              let tel = telegram_of_token (String.sub a (j + 1) (String.length a - j - 1)) in
+              let f = encode tel in
+              if a.[0] = 'H' then (OpTx (by_rx, t, PayRaw (take n f)), (if by_rx then `Quirk else `Sent tel))
+              else (OpTx (by_rx, t, PayRaw (drop n f)), (if by_rx then `Quirk else `Nop))
+            else if a.[0] = 'G' then
               let j = String.index a '/' in
               let data = unhex (String.sub a (j + 1) (String.length a - j - 1)) in
               (OpTx (by_rx, t, PayRaw data), (if by_rx then `Quirk else `Garbage (a.[1] = '1')))
@@ -223,6 +234,7 @@ let handle (case : string) (out : string) : unit =
       let strs = List.map (fun o -> match o with
         | SoTx (n, exp) -> Printf.sprintf "X %d %s" (int_of_nat n) (string_of_opt exp)
         | SoRaw n -> Printf.sprintf "R %d" (int_of_nat n)
+        | SoNone -> "N"
         | SoPoll (d, r, pending) -> string_of_poll d r (int_of_nat pending)) outs in
       let strs = if panicked then strs @ ["PANIC"] else strs in
       let model = (match strs with [] -> "-" | l -> String.concat " ; " l) in
@@ -232,6 +244,15 @@ let handle (case : string) (out : string) : unit =
       let waiting = List.exists (fun o -> match o with SoPoll (d, _, p) -> int_of_nat p > 0 && d = [] | _ -> false) outs in
       if partial then count "sim:poll-with-delivery-and-incomplete-tail";
       if waiting then count "sim:poll-mid-telegram";
+      (* a transmit call of the receiver that sent nothing while it had unread bytes *)
+      let rec idle_tx_unread pend pr orr = match pr, orr with
+        | (_, `Poll _) :: pr, SoPoll (_, _, p) :: orr -> idle_tx_unread (int_of_nat p) pr orr
+        | (OpTxNone (true, _), _) :: pr, _ :: orr -> pend > 0 || idle_tx_unread pend pr orr
+        | _ :: pr, _ :: orr -> idle_tx_unread pend pr orr
+        | _, _ -> false in
+      if List.exists (fun (o, _) -> match o with OpTxNone _ -> true | _ -> false) pops then count (Printf.sprintf "sim:%s:idle-transmit" kind);
+      if idle_tx_unread 0 pops outs then count "sim:idle-transmit-with-incomplete-telegram-buffered";
+      if List.exists (fun (o, k) -> k = `Nop && (match o with OpTx _ -> true | _ -> false)) pops then count (Printf.sprintf "sim:%s:telegram-in-two-transmissions" kind);
       if kind = "RXS" then begin
         if has_panic out then report_fail "C16" "no_panic" case out
         else begin
@@ -243,6 +264,7 @@ let handle (case : string) (out : string) : unit =
               | `Poll flush -> EvPoll (flush, obs_of_string o)
               | `Sent t -> if valid_telegramb t then EvSent t else EvGarbage false
               | `Garbage m -> EvGarbage (m && all)
+              | `Nop -> EvNop
               | `Quirk -> EvGarbage false) pops outstrs) with _ -> None) with
             | None -> report_fail "C16" "sim_shape" case out
             | Some evs ->
